@@ -136,7 +136,7 @@ PROPS["C15"] = {
     "units": [
         {"name": "gnet-lb", "pkgdir": ".", "files": ["harness/gnet/c15_lb.go"], "mode": "int", "unwind": 300, "contracts": ["byteslice", "ringbuffer"],
          "stub_values": GNET_STUB_VALUES,
-         "cfg": {"vcfg": {"maxN": 16, "maxNcount": 4, "maxNlc": 6}}, "cfg_thorough": {"vcfg": {"maxN": 256, "maxNcount": 4, "maxNlc": 8}}},
+         "cfg": {"vcfg": {"maxN": 16, "maxNcount": 4, "maxNlc": 6}}, "cfg_thorough": {"vcfg": {"maxN": 64, "maxNcount": 4, "maxNlc": 8}}},
     ],
 }
 
@@ -455,7 +455,7 @@ def _patch_units():
     zone_unit = dict(_LOOP_COMMON, name="loop-zone", files=["harness/gnet/vloop_world.go", "harness/gnet/c12_zone.go"], cfg={"vcfg": {"nodes": 1}})
     us = PROPS["C12"]["units"]
     PROPS["C12"]["units"] = [zone_unit if u == "__LOOP_ZONE__" else u for u in us]
-    PROPS["C17"]["units"].append(dict(zone_unit, name="loop-zone-c17"))
+    PROPS["C17"]["units"].append(dict(zone_unit, name="loop-zone-c17", files=zone_unit["files"] + ["harness/gnet/c17_accept.go"]))
     def el_enroll(src, out):
         _LOOP_REWRITES["eventloop_unix.go"](src, out)
         t = open(out).read()
